@@ -101,6 +101,31 @@ theorem flush_touches_nothing_else (fs : Fs) (dir base : Str) (chunks : List Str
     (run (flushOps dir base chunks) fs).read (tmpName dir base) = none :=
   ⟨fun k => (atomic_replace_prefix dir base chunks fs k).2, (atomic_replace_final dir base chunks fs).2⟩
 
+/-- **a flush that fails while rendering leaves the old file**: whatever entry makes the loop raise (an
+unknown entry type, a missing checksum or mtime, an unencodable path, an interrupt) and however much text had
+reached the temp file, at every point of the clean-up sequence the CONTENTS path holds exactly its previous
+content, no other file changes, and the temp file is gone at the end. -/
+theorem flush_abort_keeps_old (fs : Fs) (dir base : Str) (written : List Str) (k : Nat) :
+    (run ((abortOps dir base written).take k) fs).read (targetName dir base) = fs.read (targetName dir base) ∧
+    (∀ q, q ≠ tmpName dir base → (run ((abortOps dir base written).take k) fs).read q = fs.read q) ∧
+    (run (abortOps dir base written) fs).read (tmpName dir base) = none := by
+  have hun : ∀ q, q ≠ tmpName dir base → (run ((abortOps dir base written).take k) fs).read q = fs.read q :=
+    fun q hq => run_untouched _ fs q (fun op hop => abortOps_untouched dir base written q hq op (List.mem_of_mem_take hop))
+  exact ⟨hun _ (tmp_ne_target dir base).symm, hun, abortOps_final dir base written fs⟩
+
+/-- **flush writes the current set, whatever its history**: after any sequence of mutating operations
+(`add`, `discard`/`remove`, `clear`, `update`, `difference_update`, `intersection_update`,
+`symmetric_difference_update`) on a set, the result is again a set (one entry per location), and flushing
+it and reading it back yields exactly the entries the history leaves — not those of an earlier state. -/
+theorem history_flush_roundtrip (S : List Entry) (hist : List SetOp) (hset : IsSet S)
+    (hok : ∀ e, (e ∈ S ∨ ∃ op ∈ hist, e ∈ opEntries op) → normpath e.loc = e.loc ∧ Representable e) :
+    IsSet (applyOps S hist) ∧
+    ∃ r, readContents (renderFile (applyOps S hist)) = some r ∧ SameEntries r (applyOps S hist) := by
+  have h1 := applyOps_isSet S hist hset
+  refine ⟨h1, contents_roundtrip_partial _ h1 ?_ ?_⟩
+  · intro e he; exact (hok e (mem_applyOps S hist e he)).1
+  · intro e he; exact (hok e (mem_applyOps S hist e he)).2
+
 /-! ### the hypotheses are satisfiable -/
 
 def exampleSet : List Entry :=
@@ -121,5 +146,13 @@ example : readContents (renderFile exampleSet) = some (sortEntries exampleSet) :
 /-- a crash in the middle of the write (after the first chunk) leaves the old file -/
 example : (run ((flushOps "/v".toList "CONTENTS".toList ["dir /a\n".toList, "dir /b\n".toList]).take 4)
     [("/v/CONTENTS".toList, "dir /old\n".toList)]).read "/v/CONTENTS".toList = some "dir /old\n".toList := by decide
+
+/-- load, discard, flush: the discarded entry is gone from the file -/
+example : readContents (renderFile (applyOps [Entry.dir "/a".toList, Entry.dir "/b".toList] [.discard "/a".toList]))
+    = some [Entry.dir "/b".toList] := by decide
+
+/-- a failure after the first line was written: CONTENTS still holds the old text, the temp file is removed -/
+example : (run (abortOps "/v".toList "CONTENTS".toList ["dir /a\n".toList]) [("/v/CONTENTS".toList, "dir /old\n".toList)])
+    = [("/v/CONTENTS".toList, "dir /old\n".toList)] := by decide
 
 end Pkgcore.C24
